@@ -5,7 +5,7 @@
 //@ timeout quick=600 thorough=1800
 //@ note L: one symbolic XMLCh c, the real 64K table fgCharCharsTable1_0 copied textually on every run; complete for all 65536 code units
 //@ note XMLChar1_0::enableNELWS() (the documented NON-conformant switch XMLPlatformUtils::recognizeNEL) overwrites entries 0x85 and 0x2028 at run time; the statement is about the table as initialised (switch off, the default)
-//@ note quick tier: the four classes the property names (Char, S, NameStartChar, NameChar) plus NCName; thorough adds the derived fast-path classes (control, plain content, special start tag)
+//@ note the classes Char, S, NameStartChar, NameChar, NCName are productions; control / plain content / special start tag are fast-path classes whose definition is taken from the documented intent (XMLChar.cpp table generator comments), not from a production
 #define VERIF_DEFINE_GHOSTS
 #include "verif_prelude.h"
 #include "xmlchars.h"
@@ -31,11 +31,9 @@ void h_chartab_10(void)
   __CPROVER_assert(((t & gFirstNameCharMask) != 0) == spec_xml_NameStartChar(c), "C02: table 1.0 gFirstNameCharMask <=> XML 1.0 (5th ed.) [4] NameStartChar");
   __CPROVER_assert(((t & gNameCharMask) != 0) == spec_xml_NameChar(c), "C02: table 1.0 gNameCharMask <=> XML 1.0 (5th ed.) [4a] NameChar");
   __CPROVER_assert(((t & gNCNameCharMask) != 0) == spec_xml_NCNameChar(c), "C02: table 1.0 gNCNameCharMask <=> NameChar minus ':' (Namespaces [4])");
-#ifdef ALL_MASKS
   __CPROVER_assert((t & gControlCharMask) == 0, "C02: table 1.0 gControlCharMask is empty (XML 1.0 has no RestrictedChar)");
   __CPROVER_assert(((t & gPlainContentCharMask) != 0) == (spec_xml10_Char(c) && c != 0xD && c != 0xA && c != '<' && c != '&' && c != ']'),
                    "C02: table 1.0 gPlainContentCharMask <=> Char minus {CR, LF, '<', '&', ']'}");
   __CPROVER_assert(((t & gSpecialStartTagCharMask) != 0) == (spec_xml_S(c) || c == 0 || c == '/' || c == '>' || c == '<' || c == '\'' || c == '"'),
                    "C02: table 1.0 gSpecialStartTagCharMask <=> S or one of NUL / > < ' \"");
-#endif
 }
